@@ -397,6 +397,54 @@ Proof.
     apply (pair_swap_Don p (p_lp ps)) in H; [|congruence]. exact H.
 Qed.
 
+(* the same with any entry step (SendFrom: the OWNER pays, the hook's sender is the spender): all that matters is that
+   the entry is a donation to [p] which, when [p] is the swapping pair, credits it with exactly the offered amount *)
+Lemma entry_then_swap_path w w1 w' p ps p' ps' funds sender offer amount bp ms to out :
+  asset_eqb (p_a0 ps) (p_a1 ps) = false -> p_comm ps <= D ->
+  Solvent w1 -> (p' = p -> ps' = ps) -> Don p (p_lp ps) w w1 ->
+  (p' = p -> forall y, bal w1 y p = if asset_eqb y offer then bal w y p + amount else bal w y p) ->
+  pair_swap w1 p' ps' funds sender offer amount bp ms to = Ok (w', out) ->
+  pathx (p_comm ps) (p' = p -> kf_c01 (bal w offer p) (bal w (if asset_eqb offer (p_a0 ps) then p_a1 ps else p_a0 ps) p)
+                          amount (p_comm ps) = false)
+        (pool_at w p ps) (pool_at w' p ps).
+Proof.
+  intros H01 Hc HS1 Hps D1 Hb H.
+  destruct (N.eq_dec p' p) as [E|Ne].
+  - subst p'. rewrite (Hps eq_refl) in H. clear Hps. specialize (Hb eq_refl).
+    assert (Bo : bal w1 offer p = bal w offer p + amount).
+    { rewrite Hb, LedgerProofs.asset_eqb_refl. reflexivity. }
+    destruct out as [[ret spread] comm].
+    destruct (pair_swap_self _ _ _ _ _ _ _ _ _ _ _ _ _ _ H01 H) as (Hor & _).
+    pose proof (offer_ask_distinct ps offer H01 Hor) as Hoa.
+    assert (Ba : bal w1 (if asset_eqb offer (p_a0 ps) then p_a1 ps else p_a0 ps) p =
+                 bal w (if asset_eqb offer (p_a0 ps) then p_a1 ps else p_a0 ps) p).
+    { rewrite Hb. rewrite LedgerProofs.asset_eqb_sym, Hoa. reflexivity. }
+    eapply pathx_weaken; [|eapply (swap_self_path w w1 w'); try eassumption; rewrite Bo; apply N.le_refl].
+    intros Hk. specialize (Hk eq_refl). rewrite Bo, Ba.
+    replace (bal w offer p + amount - amount) with (bal w offer p) by (clear; lia). exact Hk.
+  - apply pathx_false. apply Don_path. eapply Don_trans; [exact D1|].
+    apply (pair_swap_Don p (p_lp ps)) in H; [|congruence]. exact H.
+Qed.
+
+(* the pair's Receive with a swap hook, as dispatched by a cw20 Send / SendFrom *)
+Lemma pair_receive_swap_inv w1 p ps ta funds sender n offer amount bp ms to w' :
+  pair_receive w1 p ps ta funds sender n (HSwap offer amount bp ms to) = Ok w' ->
+  exists out, offer = AToken ta /\ amount = n /\ (p_a0 ps = AToken ta \/ p_a1 ps = AToken ta) /\
+    pair_swap w1 p ps funds sender offer amount bp ms to = Ok (w', out).
+Proof.
+  intros H. cbn [pair_receive] in H.
+  destruct (amount =? n) eqn:En; cbn [negb] in H; [|discriminate]. apply N.eqb_eq in En.
+  apply bind_ok in H. destruct H as (b0 & _ & H).
+  apply bind_ok in H. destruct H as (b1 & _ & H).
+  destruct (asset_eqb (p_a0 ps) (AToken ta) || asset_eqb (p_a1 ps) (AToken ta)) eqn:Ea;
+    cbn [negb] in H; [|discriminate].
+  destruct (asset_eqb offer (AToken ta)) eqn:Eo; cbn [negb] in H; [|discriminate].
+  apply bind_ok in H. destruct H as (r & Hs & H). destruct r as [w2 out]. cbn [fst] in H.
+  inversion H. subst w2. clear H.
+  exists out. split; [apply LedgerProofs.asset_eqb_eq; exact Eo|]. split; [exact En|]. split; [|exact Hs].
+  apply orb_true_iff in Ea. destruct Ea as [Ea|Ea]; apply LedgerProofs.asset_eqb_eq in Ea; [left | right]; exact Ea.
+Qed.
+
 (* ------------------------------------------------------------------------------------ *)
 (* router                                                                                *)
 (* ------------------------------------------------------------------------------------ *)
@@ -699,6 +747,82 @@ Proof.
   rewrite E in A. rewrite A in A'. inversion A'. subst lt'. congruence.
 Qed.
 
+(* ---- the allowance-spending entry points: TransferFrom-like ledger part of SendFrom, BurnFrom; DecreaseAllowance ---- *)
+Lemma transfer_from_effect w ta sp ow to n w' :
+  with_token w ta (fun t => tok_transfer_from t sp ow to n) = Ok w' ->
+  n <= bal w (AToken ta) ow /\
+  (forall y a, bal w' y a =
+     if asset_eqb y (AToken ta) then
+       (if ow =? to then bal w y a
+        else if a =? ow then bal w y a - n else if a =? to then bal w y a + n else bal w y a)
+     else bal w y a).
+Proof.
+  intros H. apply with_token_inv in H. destruct H as (t & t' & Ht & Hf & ->).
+  apply tok_transfer_from_full in Hf. destruct Hf as (al & _ & _ & Hle & _ & _ & _ & _ & Hb).
+  split; [cbn [bal]; rewrite Ht; exact Hle|].
+  intros y a. rewrite set_token_bal. destruct (asset_eqb y (AToken ta)) eqn:Ey; [|reflexivity].
+  apply LedgerProofs.asset_eqb_eq in Ey. subst y. cbn [bal]. rewrite Ht. apply Hb.
+Qed.
+
+(* seen from the recipient [p] (not the owner): credited with exactly n of the token, nothing else moves *)
+Lemma transfer_from_credits w ta sp ow p n w1 :
+  p <> ow -> with_token w ta (fun t => tok_transfer_from t sp ow p n) = Ok w1 ->
+  forall y, bal w1 y p = if asset_eqb y (AToken ta) then bal w y p + n else bal w y p.
+Proof.
+  intros Hpo H y. destruct (transfer_from_effect _ _ _ _ _ _ _ H) as (_ & Hb).
+  rewrite Hb. destruct (asset_eqb y (AToken ta)); [|reflexivity].
+  assert (E1 : (ow =? p) = false) by (apply N.eqb_neq; congruence).
+  assert (E2 : (p =? ow) = false) by (apply N.eqb_neq; exact Hpo).
+  rewrite E1, E2, N.eqb_refl. reflexivity.
+Qed.
+
+Lemma burn_from_effect w ta sp ow n w' : with_token w ta (fun t => tok_burn_from t sp ow n) = Ok w' ->
+  n <= bal w (AToken ta) ow /\ supply w' ta + n = supply w ta /\
+  (forall y a, bal w' y a = if asset_eqb y (AToken ta) && (a =? ow) then bal w y a - n else bal w y a).
+Proof.
+  intros H. apply with_token_inv in H. destruct H as (t & t' & Ht & Hf & ->).
+  apply tok_burn_from_effect in Hf. destruct Hf as (al & _ & _ & H1 & H2 & Hs & _ & _ & _ & Hb).
+  split; [cbn [bal]; rewrite Ht; exact H1|].
+  split.
+  - rewrite set_token_supply, N.eqb_refl. unfold supply. rewrite Ht. clear - H2 Hs. lia.
+  - intros y a. rewrite set_token_bal. destruct (asset_eqb y (AToken ta)) eqn:Ey; cbn [andb]; [|reflexivity].
+    apply LedgerProofs.asset_eqb_eq in Ey. subst y. cbn [bal]. rewrite Ht. apply Hb.
+Qed.
+
+(* whoever is debited through an allowance holds an allowance entry: by [Inert] it is no contract *)
+Lemma transfer_from_owner_allow w ta sp ow to n w' :
+  with_token w ta (fun t => tok_transfer_from t sp ow to n) = Ok w' ->
+  exists t, w_tokens w ta = Some t /\ t_allow t ow sp <> None.
+Proof.
+  intros H. apply with_token_inv in H. destruct H as (t & t' & Ht & Hf & _).
+  apply tok_transfer_from_inv in Hf. destruct Hf as (Hal & _). exists t. split; assumption.
+Qed.
+Lemma burn_from_owner_allow w ta sp ow n w' :
+  with_token w ta (fun t => tok_burn_from t sp ow n) = Ok w' ->
+  exists t, w_tokens w ta = Some t /\ t_allow t ow sp <> None.
+Proof.
+  intros H. apply with_token_inv in H. destruct H as (t & t' & Ht & Hf & _).
+  apply tok_burn_from_inv in Hf. destruct Hf as (Hal & _). exists t. split; assumption.
+Qed.
+
+Lemma burn_from_Don p lp w ta sp ow n w' :
+  p <> ow -> lp <> ta -> with_token w ta (fun t => tok_burn_from t sp ow n) = Ok w' -> Don p lp w w'.
+Proof.
+  intros Hp Hl H. split; [|eapply with_token_supply_other; eassumption].
+  eapply with_token_Dm; [|exact H]. intros t t' _ Hf. cbv beta in Hf.
+  apply tok_burn_from_inv in Hf. destruct Hf as (_ & _ & _ & Hb). rewrite (Hb p Hp). apply N.le_refl.
+Qed.
+
+Lemma decrease_allowance_Don p lp w ta ow sp n w' :
+  with_token w ta (fun t => tok_decrease_allowance t ow sp n) = Ok w' -> Don p lp w w'.
+Proof.
+  intros H. split.
+  - eapply with_token_Dm; [|exact H]. intros t t' _ Hf. cbv beta in Hf.
+    apply tok_decrease_allowance_effect in Hf. destruct Hf as (_ & al & _ & Hb & _). rewrite Hb. apply N.le_refl.
+  - eapply with_token_supply; [exact H|]. intros _ t t' _ Hf. cbv beta in Hf.
+    apply tok_decrease_allowance_effect in Hf. destruct Hf as (_ & al & _ & _ & Hs & _). exact Hs.
+Qed.
+
 (* ------------------------------------------------------------------------------------ *)
 (* operation classes                                                                     *)
 (* ------------------------------------------------------------------------------------ *)
@@ -706,6 +830,7 @@ Definition routerless (o : op) : bool :=
   match o with
   | ORouterOps _ _ _ _ _ | ORouterOp _ _ _ _ _ | ORouterReceive _ _ _ _ => false
   | OSend _ _ _ _ (HRouterOps _ _ _) => false
+  | OSendFrom _ _ _ _ _ (HRouterOps _ _ _) => false
   | _ => true
   end.
 Definition swap_hook (h : hook) : bool :=
@@ -714,7 +839,7 @@ Definition swap_hook (h : hook) : bool :=
 Definition swapless (o : op) : bool :=
   match o with
   | OSwap _ _ _ _ _ _ _ _ => false
-  | OSend _ _ _ _ h | OPairReceive _ _ _ _ _ h => negb (swap_hook h)
+  | OSend _ _ _ _ h | OPairReceive _ _ _ _ _ h | OSendFrom _ _ _ _ _ h => negb (swap_hook h)
   | ORouterOps _ _ _ _ _ | ORouterOp _ _ _ _ _ | ORouterReceive _ _ _ _ => false
   | _ => true
   end.
@@ -870,12 +995,75 @@ Proof.
     cbn [exec] in H. apply pathx_false, Don_path, Same_Don. eapply fac_add_native_Same. exact H.
   - (* OFacMigrate *)
     cbn [exec] in H. apply pathx_false, Don_path, Same_Don. eapply fac_migrate_pair_Same. exact H.
+  - (* OSendFrom: the ledger part debits the OWNER, who holds an allowance entry and is therefore no contract;
+       the hook then runs exactly as for Send, with the spender as the cw20 sender *)
+    cbn [exec] in H. apply cw20_send_from_inv in H. destruct H as (w1 & H1 & H).
+    assert (Hown : ~ is_contract w owner).
+    { intros Hoc. destruct (transfer_from_owner_allow _ _ _ _ _ _ _ H1) as (t & Ht & Hal).
+      apply Hal. eapply I1; eassumption. }
+    assert (Hpo : p <> owner) by (intros E; apply Hown; rewrite <- E; exact Hpc).
+    assert (Hlo : p_lp ps <> owner) by (intros E; apply Hown; rewrite <- E; exact Hlc).
+    pose proof (transfer_from_Don p (p_lp ps) _ _ _ _ _ _ _ Hpo H1) as D1.
+    pose proof (tok_transfer_from_pres _ _ _ _ _ _ _ H1 HS) as HS1.
+    pose proof (with_token_keeps _ _ _ _ H1) as (_ & Kr & Kp).
+    unfold cw20_dispatch in H. rewrite Kp, Kr in H.
+    destruct (w_pairs w target) as [ps'|] eqn:Ept.
+    + destruct h as [offer amount bp ms to| |rops m to|]; try (cbn [pair_receive] in H; discriminate H).
+      * (* swap hook: a swap paid by the owner *)
+        destruct (pair_receive_swap_inv _ _ _ _ _ _ _ _ _ _ _ _ _ H) as (out & Eo & En & _ & Hs).
+        subst offer amount.
+        assert (Hps : target = p -> ps' = ps) by (intros E; rewrite E in Ept; congruence).
+        eapply pathx_weaken;
+          [|apply (entry_then_swap_path w w1 w' p ps target ps' [] spender (AToken ta) n bp ms to out H01 Hcm HS1 Hps D1);
+            [|exact Hs]].
+        -- intros E. discriminate E.
+        -- intros E. subst target. exact (transfer_from_credits _ _ _ _ _ _ _ Hpo H1).
+      * (* withdraw hook: the owner's LP is burnt, the proceeds go to the spender *)
+        cbn [pair_receive] in H.
+        destruct (ta =? p_lp ps') eqn:Eta; cbn [negb] in H; [|discriminate]. apply N.eqb_eq in Eta. subst ta.
+        apply pathx_false.
+        destruct (N.eq_dec target p) as [E|Ne].
+        -- subst target. rewrite Hp in Ept. inversion Ept. subst ps'.
+           apply (withdraw_self_path w w1 w' p ps spender n H01 H0l H1l Hup D1); [|exact H].
+           destruct (transfer_from_effect _ _ _ _ _ _ _ H1) as (Hle & _).
+           assert (Hol : owner <> p_lp ps) by congruence.
+           pose proof (Solvent_token_two w (p_lp ps) owner (p_lp ps) HS Hol) as L.
+           clear - L Hle Hunit. lia.
+        -- apply Don_path. eapply Don_trans; [exact D1|].
+           apply (pair_withdraw_Don p (p_lp ps) w1 target ps' spender n); [congruence| |exact H].
+           intros E. apply Ne. symmetry. eapply (lp_inj w p ps target ps'); eassumption.
+    + destruct (target =? w_rtr w); [|discriminate].
+      destruct h as [| |rops m to|]; try discriminate.
+      eapply pathx_weaken;
+        [|eapply pathx_app;
+          [apply pathx_false, Don_path, D1|
+           eapply (router_exec_ops_path w1);
+           [exact H01|exact Hcm|exact HS1|rewrite Kp; exact Hp|
+            rewrite Kr; apply Hrp; reflexivity|exact H]]].
+      intros E. discriminate E.
+  - (* OBurnFrom: as OBurn, on the owner's balance *)
+    cbn [exec] in H.
+    assert (Hown : ~ is_contract w owner).
+    { intros Hoc. destruct (burn_from_owner_allow _ _ _ _ _ _ H) as (t & Ht & Hal).
+      apply Hal. eapply I1; eassumption. }
+    assert (Hpo : p <> owner) by (intros E; apply Hown; rewrite <- E; exact Hpc).
+    assert (Hlo : p_lp ps <> owner) by (intros E; apply Hown; rewrite <- E; exact Hlc).
+    destruct (N.eq_dec (p_lp ps) ta) as [E|Ne].
+    + subst ta. apply pathx_false, path_step. apply burn_from_effect in H. destruct H as (Hle & Hsup & Hb).
+      unfold pool_at. rewrite !Hb, H0l, H1l. cbn [andb].
+      assert (Hol : owner <> p_lp ps) by congruence.
+      pose proof (Solvent_token_two w (p_lp ps) owner (p_lp ps) HS Hol) as L.
+      replace (supply w' (p_lp ps)) with (supply w (p_lp ps) - n) by (clear - Hsup; lia).
+      apply ps_burn. clear - L Hle Hunit. lia.
+    + apply pathx_false, Don_path. eapply burn_from_Don; eassumption.
+  - (* ODecreaseAllowance *)
+    cbn [exec] in H. apply pathx_false, Don_path. eapply decrease_allowance_Don; exact H.
 Qed.
 
 Lemma swapless_routerless o : swapless o = true -> routerless o = true.
 Proof.
   destruct o; cbn [swapless routerless]; try reflexivity; try discriminate.
-  destruct h; cbn [swap_hook negb]; try reflexivity; discriminate.
+  all: destruct h; cbn [swap_hook negb]; try reflexivity; discriminate.
 Qed.
 
 (* ---- theorem 2 ---- *)
@@ -1032,6 +1220,37 @@ Proof.
   subst offer amount.
   assert (Hps : p' = p -> ps' = ps) by (intros E; rewrite E in Hp'; congruence).
   pose proof (pay_then_swap_path w w1 w' p ps p' ps' [] sender (AToken ta) n bp ms to out H01 Hcm HS Hup Hps Hm Hs) as X.
+  apply (pathx_cond _ _ _ _ X). intros E. subst p'. rewrite (Hps eq_refl) in Hk. exact Hk.
+Qed.
+
+(* the same swap entered through SendFrom: paid by [owner] out of the allowance it gave [spender]; the spender is the
+   hook's sender (the default receiver).  No hypothesis on the submitter is needed: the debited owner holds an
+   allowance entry, so by [Inert'] it is not a contract, and the pair is only ever credited by the entry transfer *)
+Theorem exec_hook_swap_from_value : forall w ta spender owner p' ps' n offer amount bp ms to w' p ps,
+  WF w -> Solvent w -> Inert' w -> w_pairs w p' = Some ps' ->
+  kf_c01 (bal w offer p') (bal w (if asset_eqb offer (p_a0 ps') then p_a1 ps' else p_a0 ps') p')
+         amount (p_comm ps') = false ->
+  exec w (OSendFrom ta spender owner p' n (HSwap offer amount bp ms to)) = Ok w' ->
+  w_pairs w p = Some ps -> 0 < supply w (p_lp ps) ->
+  path false (pool_at w p ps) (pool_at w' p ps).
+Proof.
+  intros w ta spender owner p' ps' n offer amount bp ms to w' p ps HW HS HI Hp' Hk H Hp Hpos.
+  destruct (WF_pair _ _ _ HW Hp) as (_ & _ & _ & _ & H01 & _ & _ & _ & Hcm & _).
+  assert (Hpc : is_contract w p) by (right; right; left; rewrite Hp; discriminate).
+  destruct HI as ((I1 & _) & _).
+  cbn [exec] in H. apply cw20_send_from_inv in H. destruct H as (w1 & H1 & H).
+  assert (Hpo : p <> owner).
+  { intros E. destruct (transfer_from_owner_allow _ _ _ _ _ _ _ H1) as (t & Ht & Hal).
+    apply Hal. eapply I1; [exact Ht|]. rewrite <- E. exact Hpc. }
+  pose proof (transfer_from_Don p (p_lp ps) _ _ _ _ _ _ _ Hpo H1) as D1.
+  pose proof (tok_transfer_from_pres _ _ _ _ _ _ _ H1 HS) as HS1.
+  unfold cw20_dispatch in H. rewrite (with_token_pairs _ _ _ _ H1), Hp' in H.
+  destruct (pair_receive_swap_inv _ _ _ _ _ _ _ _ _ _ _ _ _ H) as (out & Eo & En & _ & Hs).
+  subst offer amount.
+  assert (Hps : p' = p -> ps' = ps) by (intros E; rewrite E in Hp'; congruence).
+  assert (Hb : p' = p -> forall y, bal w1 y p = if asset_eqb y (AToken ta) then bal w y p + n else bal w y p).
+  { intros E. subst p'. exact (transfer_from_credits _ _ _ _ _ _ _ Hpo H1). }
+  pose proof (entry_then_swap_path w w1 w' p ps p' ps' [] spender (AToken ta) n bp ms to out H01 Hcm HS1 Hps D1 Hb Hs) as X.
   apply (pathx_cond _ _ _ _ X). intros E. subst p'. rewrite (Hps eq_refl) in Hk. exact Hk.
 Qed.
 
@@ -1335,6 +1554,7 @@ Print Assumptions exec_swapless_value_le.
 Print Assumptions exec_direct_swap_value_funds.
 Print Assumptions exec_direct_swap_value_variant.
 Print Assumptions exec_hook_swap_value.
+Print Assumptions exec_hook_swap_from_value.
 Print Assumptions run_pool_path_variant.
 Print Assumptions run_pool_path_flag.
 Print Assumptions run_pool_path_at_variant.
